@@ -101,6 +101,8 @@ class SlowCallback:
 
     def _rec(self, k, name=None, n=0):
         d = self.delay.get(k, 0) if isinstance(self.delay, dict) else self.delay     # a dict delays the named kinds of event only
+        if k == "post":
+            self.entered_post.set()
         if d:
             time.sleep(d)
         f, i = self.names_rev.get(name, (0, 1 + sum(map(ord, name)) % 1000)) if name else (0, 0)   # f = 0: not a data member (directory)
@@ -131,6 +133,7 @@ def make_callback(py7zr, log, delay, names_rev):
 
     cb = CB()
     cb.log, cb.delay, cb.names_rev = log, delay, names_rev
+    cb.entered_post = threading.Event()
     cb.cbid = 1
     return cb
 
@@ -397,6 +400,9 @@ def run_case(case):
                     results[0] = first
         ncb_before = len(log)
         cexc = ""
+        if cb is not None and case.get("callback") in ("slowpost", "slowlast"):
+            # the caller closes while the reporter is inside its last handler (fetched, not yet delivered) - a schedule, not a guess
+            cb.entered_post.wait(1.0)
         try:
             objs[0].close()
         except Exception as e:  # noqa
